@@ -485,6 +485,14 @@ class UOWTransaction:
         if isdel:
             self.session._remove_newly_deleted(isdel)
         if other:
+            # a delete that was cancelled during this flush (the object was
+            # attached to a new parent, register_object(cancel_delete=True))
+            # must not stay queued for the next flush
+            session_deleted = self.session._deleted
+            if session_deleted:
+                for s in other:
+                    if s in session_deleted and not self.states[s][1]:
+                        del session_deleted[s]
             self.session._register_persistent(other)
 
 
